@@ -430,6 +430,8 @@ func newEnv(c *suiteCtx, cfg proxyCfg) (*testEnv, error) {
 	}
 	// the options under test are the ones the real configuration loader produces for these settings
 	o = e.viaConfigPath(o)
+	release := quiesce()
+	defer release()
 	if err := validation.Validate(o); err != nil {
 		e.close()
 		return nil, fmt.Errorf("validate: %w", err)
@@ -641,6 +643,31 @@ func (e *testEnv) varyDeployment(o *options.Options) {
 	o.Logging.SilencePing = pick(2) == 1
 	e.c.count("deploy:prefix:" + o.ProxyPrefix)
 	e.c.count("deploy:cookie-name:" + o.Cookie.Name)
+}
+
+// serving: validation.Validate and NewOAuthProxy configure PACKAGE-LEVEL state (the logger's switches, templates and outputs) — a
+// real process does that once, before it serves anything.  The harness builds many proxies in one process: the front servers it puts
+// before a proxy hand requests over through this wrapper, and newEnv configures the next proxy only while none of them is inside a
+// handler (a request's log line is written after its response: the client has its answer while the handler is still running).
+var servingMu sync.RWMutex
+
+func serving(h http.Handler) http.Handler {
+	return http.HandlerFunc(func(rw http.ResponseWriter, req *http.Request) {
+		servingMu.RLock()
+		defer servingMu.RUnlock()
+		h.ServeHTTP(rw, req)
+	})
+}
+
+// quiesce takes the write side (gives up after 5 s: a suite that builds a proxy while it holds a request of another one open)
+func quiesce() func() {
+	for i := 0; i < 500; i++ {
+		if servingMu.TryLock() {
+			return servingMu.Unlock
+		}
+		time.Sleep(10 * time.Millisecond)
+	}
+	return func() {}
 }
 
 func (e *testEnv) buildRequest(rs reqSpec) (*http.Request, error) {
